@@ -1,5 +1,7 @@
 """C16 — iterators, ranges and hybrid loops visit exactly the intended elements, lawfully."""
 
+from translators import tr_c16
+
 PID = "C16"
 CLAIM = True
 MANIFEST_TEXT = ("Lean 4 theorems over a model in which an iterator is (container, position) and every public operator is derived "
@@ -15,7 +17,7 @@ MANIFEST_NOTE = ("Trusted: Lean kernel (+propext/Classical.choice/Quot.sound), t
                  "Hybrid overload the compiler picks) is a compile-time fact the model takes as given; integer wrap-around of "
                  "narrow integral types is outside the model (positions and differences are assumed representable).")
 TECHNIQUE = "Lean 4 proof over facade-derivation model + differential correspondence on all library iterator kinds with integer-position oracle"
-TRANSLATORS = []
+TRANSLATORS = [tr_c16.translate]
 HARNESS = dict(
     sources=["cxx_c16.cc"],
     repo_sources=["dune/common/exceptions.cc", "dune/common/stdstreams.cc"],
